@@ -156,8 +156,8 @@ theorem verifyRrsigWithKeys_secure (env : Env) (gid : GroupId) (m : Msg) (sig : 
   · simp at h
   · obtain ⟨k, hk, hp, hs⟩ := scanKeys_secure _ _ _ _ _ h
     have := capKeys_subset _ _ k hk
-    simp only [List.mem_filter, beq_iff_eq] at this
-    exact ⟨k, this.1, this.2, hp, hs⟩
+    simp only [List.mem_filter, Bool.and_eq_true, beq_iff_eq] at this
+    exact ⟨k, this.1, this.2.1, hp, hs⟩
 
 /-! ### `verify_default_rrset` -/
 
@@ -260,18 +260,18 @@ theorem firstSig_some (env : Env) (gid : GroupId) (keyed : List (Rec × Proof)) 
       rw [this]
       simpa using hget
 
-/-- **one-step soundness of `verify_dnskey_rrset`**: a DNSKEY RRset is Secure either through one of its RRSIGs
-made by an individually trusted key of the same RRset that the RRSIG names as signer — or, *without any
-signature*, when every key of the RRset is individually trusted (the code's "all keys are trust anchors"
-shortcut, which also fires for DS-covered keys: findings `C07.UnsignedDnskeyRrsetSecure`,
-`C07.AnchorKeyForeignOwnerSecure`). -/
+/-- **one-step soundness of `verify_dnskey_rrset`** (after fixes e338561, 8ec5af8): a DNSKEY RRset is Secure either
+through one of its RRSIGs made by an individually trusted key of the same RRset that the RRSIG names as
+signer — or, without a signature, only when it is not empty and *every* key of it is a trust anchor. -/
 theorem verifyDnskeyRrset_secure (env : Env) (sub : Query → Res) (gid : GroupId) (recs sigs : List Rec)
     (idx : Option Nat) (h : verifyDnskeyRrset env sub gid recs sigs = .done .secure idx) :
     ∃ ds, (ds = [] ∨ fetchDs sub gid.name = .ok ds) ∧
       ((∃ i sig k', idx = some i ∧ sigs[i]? = some sig ∧ k' ∈ recs ∧ KeyOk env ds k' ∧
           k'.name = sig.signer ∧ env.sigRes k'.rid sig.rid gid = .secure) ∨
-       (idx = none ∧ recs ≠ [] ∧ ∀ k ∈ recs, KeyOk env ds k)) := by
+       (idx = none ∧ recs ≠ [] ∧ ∀ k ∈ recs, env.anchor k.rid = true)) := by
   unfold verifyDnskeyRrset at h
+  split at h
+  · simp at h
   dsimp only at h
   split at h
   · simp at h
@@ -305,13 +305,11 @@ theorem verifyDnskeyRrset_secure (env : Env) (sub : Query → Res) (gid : GroupI
           · rename_i p hlast
             injection h with h1 h2
             subst h1
-            refine Or.inr ⟨h2.symm, ?_, ?_⟩
-            · intro hnil
-              subst hnil
-              simp [keyProofs] at hlast
-            · intro k hk
-              simp only [keyProofs, List.all_map, List.all_eq_true, Function.comp, beq_iff_eq] at hall
-              exact keyProof_secure env ds k (hall k hk)
+            simp only [Bool.and_eq_true, List.all_eq_true] at hall
+            refine Or.inr ⟨h2.symm, ?_, hall.1⟩
+            intro hnil
+            subst hnil
+            simp [keyProofs] at hlast
           · simp at h
         · simp at h
 
@@ -414,8 +412,17 @@ theorem verifyMsg_ok (env : Env) (sub : Query → Res) (d : Nat) (q : Query) (qi
   split at h
   · simp at h
   · split at h
-    · injection h with h; exact h.symm
+    · -- the early exit ("all authorities Insecure" + provably insecure query name)
+      rename_i r hearly
+      split at hearly
+      · split at hearly
+        · injection hearly with hearly; subst hearly; simp at h
+        · injection hearly with hearly; subst hearly; injection h with h; exact h.symm
+        · simp at hearly
+      · simp at hearly
     · split at h
+      · injection h with h; exact h.symm
+      split at h
       · split at h
         · injection h with h; exact h.symm
         · simp at h
@@ -546,10 +553,9 @@ theorem fetchDs_insecure (sub : Query → Res) (zone : DName) (h : fetchDs sub z
       · rename_i hno
         intro d hd ht _
         exfalso
-        have : (m.an.any fun x => x.rtype == tDS) = true := by
-          simp only [List.any_eq_true, beq_iff_eq]
-          exact ⟨d, hd, ht⟩
-        simp [this] at hno
+        have : m.an = [] := by simpa using hno
+        rw [this] at hd
+        simp at hd
       · simp at h
   · simp at h
 
@@ -595,6 +601,8 @@ theorem verifyDnskeyRrset_insecure (env : Env) (sub : Query → Res) (gid : Grou
     (idx : Option Nat) (h : verifyDnskeyRrset env sub gid recs sigs = .done .insecure idx) :
     ∃ md, sub ⟨gid.name, tDS⟩ = .ok md ∧ NoSecureSupportedDs md := by
   unfold verifyDnskeyRrset at h
+  split at h
+  · simp at h
   dsimp only at h
   split at h
   · simp at h
@@ -633,7 +641,8 @@ theorem verifyDnskeyRrset_insecure (env : Env) (sub : Query → Res) (gid : Grou
           · rename_i p hlast
             injection h with h1 _
             subst h1
-            have := getLast?_of_all hall hlast
+            have hall' := (Bool.and_eq_true _ _ ▸ hall).2
+            have := getLast?_of_all hall' hlast
             simp at this
           · simp at h
         · simp at h
@@ -813,15 +822,18 @@ theorem verifyDefaultRrset_abort (env : Env) (sub : Query → Res) (q : Query) (
 
 theorem verifyDnskeyRrset_abort (env : Env) (sub : Query → Res) (gid : GroupId) (recs sigs : List Rec)
     (w : String) (h : verifyDnskeyRrset env sub gid recs sigs = .abort w) :
-    (∃ q', sub q' = .abort w) ∨ recs = [] := by
+    ∃ q', sub q' = .abort w := by
   unfold verifyDnskeyRrset at h
+  split at h
+  · simp at h
+  rename_i hne
   dsimp only at h
   split at h
   · rename_i w' hf
     injection h with h
     subst h
     split at hf
-    · exact Or.inl ⟨_, fetchDs_abort _ _ _ hf⟩
+    · exact ⟨_, fetchDs_abort _ _ _ hf⟩
     · simp at hf
   · simp at h
   · split at h
@@ -832,9 +844,9 @@ theorem verifyDnskeyRrset_abort (env : Env) (sub : Query → Res) (gid : GroupId
         · split at h
           · simp at h
           · rename_i hlast
-            right
+            exfalso
             simp only [keyProofs, List.getLast?_eq_none_iff, List.map_eq_nil_iff] at hlast
-            exact hlast
+            simp [hlast] at hne
         · simp at h
 
 /-- an RRset key of a section comes from one of its records -/
@@ -853,39 +865,6 @@ theorem mem_verdicts {env : Env} {sub : Query → Res} {d : Nat} {q : Query} {qi
   · injection hf with hf
     subst hf
     exact ⟨hk, rfl⟩
-
-/-- a DNSKEY RRset key with no DNSKEY record in the section comes from an orphan RRSIG -/
-theorem orphan_of_empty_group {sec : List Rec} {k : GKey} (hk : k ∈ groupKeys sec) (ht : k.2 = tDNSKEY)
-    (he : groupRecs sec k = []) : orphanDnskeyRrsigIn sec = true := by
-  obtain ⟨x, hx, hxk⟩ := mem_groupKeys hk
-  have hsig : x.isSig = true := by
-    cases hs : x.isSig with
-    | true => rfl
-    | false =>
-      exfalso
-      have : x ∈ groupRecs sec k := by
-        unfold groupRecs
-        simp [hx, hs, hxk]
-      rw [he] at this
-      simp at this
-  unfold orphanDnskeyRrsigIn
-  simp only [List.any_eq_true, Bool.and_eq_true, beq_iff_eq, Bool.not_eq_true', List.any_eq_false, not_and]
-  refine ⟨x, hx, ⟨hsig, ?_⟩, ?_⟩
-  · have : x.gkey.2 = k.2 := by rw [hxk]
-    simpa [Rec.gkey, Rec.gtype, hsig, ht] using this
-  · intro y hy hyt hyn
-    have hys : y.isSig = false := by simp [Rec.isSig, hyt, tDNSKEY, tRRSIG]
-    have : y ∈ groupRecs sec k := by
-      unfold groupRecs
-      have hk1 : x.gkey.1 = k.1 := by rw [hxk]
-      have hyk : y.gkey = k := by
-        rw [gkey_of_not_sig hys]
-        apply Prod.ext
-        · simpa [Rec.gkey, hyn] using hk1
-        · simp [hyt, ht]
-      simp [hy, hys, hyk]
-    rw [he] at this
-    simp at this
 
 /-- an RRSIG whose proof changes is the one its RRset's verdict points at -/
 theorem relabelOne_proof_sig (sec : List Rec) (vs : List (GKey × GV)) (i : Nat) (r : Rec) (p : Proof)
@@ -921,7 +900,7 @@ theorem firstAbort_panic {vs : List (GKey × GV)} (h : firstAbort vs = some "pan
 
 theorem fetchDs_insecure_cases (sub : Query → Res) (zone : DName) (h : fetchDs sub zone = .err .insecure) :
     ∃ md, sub ⟨zone, tDS⟩ = .ok md ∧ NoSecureSupportedDs md ∧
-      ((∃ x ∈ md.an, x.rtype = tDS ∧ x.proof = .secure) ∨ (∀ x ∈ md.an, x.rtype ≠ tDS)) := by
+      ((∃ x ∈ md.an, x.rtype = tDS ∧ x.proof = .secure) ∨ md.an = []) := by
   obtain ⟨md, hmd, hno⟩ := fetchDs_insecure sub zone h
   refine ⟨md, hmd, hno, ?_⟩
   unfold fetchDs at h
@@ -936,11 +915,7 @@ theorem fetchDs_insecure_cases (sub : Query → Res) (zone : DName) (h : fetchDs
   · split at h
     · rename_i hno'
       right
-      intro x hx ht
-      have : (md.an.any fun x => x.rtype == tDS) = true := by
-        simp only [List.any_eq_true, beq_iff_eq]
-        exact ⟨x, hx, ht⟩
-      simp [this] at hno'
+      simpa using hno'
     · simp at h
 
 theorem fetchDs_ok_any_secure (sub : Query → Res) (zone : DName) (ds : List Rec) (h : fetchDs sub zone = .ok ds) :
@@ -965,6 +940,8 @@ theorem verifyDnskeyRrset_insecure_cases (env : Env) (sub : Query → Res) (gid 
     (∃ md, sub ⟨gid.name, tDS⟩ = .ok md ∧ (∃ x ∈ md.an, x.rtype = tDS ∧ x.proof = .secure) ∧ NoSecureSupportedDs md) := by
   have hno := verifyDnskeyRrset_insecure env sub gid recs sigs idx h
   unfold verifyDnskeyRrset at h
+  split at h
+  · simp at h
   dsimp only at h
   split at h
   · simp at h
@@ -1000,7 +977,7 @@ theorem verifyDnskeyRrset_insecure_cases (env : Env) (sub : Query → Res) (gid 
           · rename_i p hlast
             injection h with h1 _
             subst h1
-            have := getLast?_of_all hall hlast
+            have := getLast?_of_all ((Bool.and_eq_true _ _ ▸ hall).2) hlast
             simp at this
           · simp at h
         · simp at h
@@ -1102,5 +1079,109 @@ theorem allAuthInsecure_exists (env : Env) (sub : Query → Res) (d : Nat) (q : 
       unfold groupRecs
       simp [hi, hs, hsx, hg, hxk]
     simpa using hr _ this
+
+/-! ### zone cuts are above the name -/
+
+theorem zoneOf_suffix {z n : DName} (h : zoneOf z n = true) : z <:+ n := by
+  unfold zoneOf at h
+  simp only [Bool.and_eq_true, decide_eq_true_eq, beq_iff_eq] at h
+  rw [← h.2]
+  exact List.drop_suffix _ _
+
+theorem baseName_suffix (n : DName) : DName.baseName n <:+ n := by
+  cases n with
+  | nil => exact List.suffix_refl _
+  | cons l t => exact List.suffix_cons l t
+
+theorem findZone_suffix (env : Env) (n z : DName) (h : findZone env n = .ok z) : z <:+ n := by
+  induction n with
+  | nil => simp [findZone] at h
+  | cons l rest ih =>
+    unfold findZone at h
+    split at h
+    · split at h
+      · injection h with h; subst h; exact List.suffix_refl _
+      · exact (ih h).trans (List.suffix_cons l rest)
+    · exact (ih h).trans (List.suffix_cons l rest)
+    · simp at h
+    · simp at h
+
+theorem findDs_insecure_suffix (env : Env) (sub : Query → Res) (n : DName) (h : findDs env sub n = .err .insecure) :
+    ∃ zone, zone <:+ n ∧ fetchDs sub zone = .err .insecure := by
+  unfold findDs at h
+  split at h
+  · simp at h
+  · simp at h
+  · rename_i zone hz
+    split at h
+    · simp at h
+    · rename_i p' hfd
+      injection h with h
+      subst h
+      exact ⟨zone, findZone_suffix _ _ _ hz, hfd⟩
+    · simp at h
+
+theorem selectOk_insecure_mem (env : Env) (sub : Query → Res) (gid : GroupId) (cands : List (Rec × Nat))
+    (idx : Option Nat) (h : selectOk env sub gid cands = .done .insecure idx) :
+    ∃ (s : Rec) (i : Nat) (m : Msg) (k : Rec), (s, i) ∈ cands ∧ sub ⟨s.signer, tDNSKEY⟩ = .ok m ∧ k ∈ m.an ∧
+      k.rtype = tDNSKEY ∧ k.name = s.signer ∧ k.proof = .insecure := by
+  induction cands with
+  | nil => simp [selectOk] at h
+  | cons c rest ih =>
+    obtain ⟨s, i⟩ := c
+    unfold selectOk at h
+    split at h
+    · simp at h
+    · rename_i m hm
+      split at h
+      · rename_i p hp
+        injection h with h1 _
+        subst h1
+        unfold verifyRrsigWithKeys at hp
+        split at hp
+        · simp at hp
+        · obtain ⟨k, hk, hkp⟩ := scanKeys_insecure _ _ _ _ _ hp (by simp)
+          have := capKeys_subset _ _ k hk
+          simp only [List.mem_filter, Bool.and_eq_true, beq_iff_eq] at this
+          exact ⟨s, i, m, k, List.mem_cons_self, hm, this.1, this.2.1, this.2.2, hkp⟩
+      · simp at h
+    · obtain ⟨s', i', m', k', hc, h'⟩ := ih h
+      exact ⟨s', i', m', k', List.mem_cons_of_mem _ hc, h'⟩
+
+/-- an RRset other than DNSKEY is Insecure because the DS lookup of a zone cut at or above its owner said
+"insecure" (no RRSIG), or because one of its RRSIGs names a signer whose validated DNSKEY answer holds an
+Insecure DNSKEY (inherited) -/
+theorem verifyDefaultRrset_insecure_suffix (env : Env) (sub : Query → Res) (q : Query) (gid : GroupId)
+    (sigs : List Rec) (idx : Option Nat)
+    (h : verifyDefaultRrset env sub q gid sigs = .done .insecure idx) :
+    (∃ zone, zone <:+ gid.name ∧ fetchDs sub zone = .err .insecure) ∨
+    (∃ (s : Rec) (m : Msg) (k : Rec), s ∈ sigs ∧ s.signer <:+ gid.name ∧ sub ⟨s.signer, tDNSKEY⟩ = .ok m ∧
+      k ∈ m.an ∧ k.rtype = tDNSKEY ∧ k.name = s.signer ∧ k.proof = .insecure) := by
+  unfold verifyDefaultRrset at h
+  split at h
+  · split at h
+    · dsimp only at h
+      split at h
+      · simp at h
+      · rename_i p hf
+        injection h with h1 _
+        subst h1
+        left
+        obtain ⟨zone, hz, hfd⟩ := findDs_insecure_suffix _ _ _ hf
+        refine ⟨zone, ?_, hfd⟩
+        split at hz
+        · exact hz.trans (baseName_suffix _)
+        · exact hz
+      · simp at h
+    · simp at h
+  · right
+    obtain ⟨s, i, m, k, hc, hm, hk, hkt, hkn, hkp⟩ := selectOk_insecure_mem _ _ _ _ _ h
+    unfold sigCands at hc
+    obtain ⟨hc', hcond⟩ := List.mem_filter.mp hc
+    have := List.mem_zipIdx_iff_getElem?.mp hc'
+    have hz : zoneOf s.signer gid.name = true := by
+      simp only [Bool.and_eq_true] at hcond
+      exact hcond.1
+    exact ⟨s, m, k, List.mem_of_getElem? (by simpa using this), zoneOf_suffix hz, hm, hk, hkt, hkn, hkp⟩
 
 end HickoryVerif.Chain
